@@ -49,10 +49,11 @@ func (m *LazyMem) Set(a uint16, v uint8) { m.ov[a] = v }
 
 // DevDesc describes the memory device of an init event.
 type DevDesc struct {
-	Kind string // "hash" | "const" | "dumb" | "map"
-	Seed int
+	Kind string // "hash" | "const" | "dumb" | "map" | "tinycpm" | "image"
+	Seed int   // image: load address
 	Val  int
 	Len  int
+	Img  []int // image: the bytes loaded at Seed over a background of Val
 }
 
 // NewInner builds the real memory object for a device description.
@@ -72,6 +73,17 @@ func NewInner(d DevDesc) z80.Memory {
 		return z80.DumbMemory(make([]uint8, d.Len))
 	case "tinycpm":
 		return newTinyCPMMemory()
+	case "image":
+		m := &FlatMem{}
+		if d.Val != 0 {
+			for a := range m.d {
+				m.d[a] = uint8(d.Val)
+			}
+		}
+		for i, b := range d.Img {
+			m.d[(d.Seed+i)&0xffff] = uint8(b)
+		}
+		return m
 	}
 	panic("bad device")
 }
@@ -372,9 +384,13 @@ func jU16(xs []uint16) string {
 // EmitInit writes an init event.
 func EmitInit(w *bufio.Writer, is *InitSpec) {
 	r := is.R
-	fmt.Fprintf(w, `{"e":"i","sid":%d,"r":%s,"h":%d,"dev":["%s",%d,%d,%d],"io":["%s",%d,%d],"cells":%s,"iocells":%s,"pend":%s}`+"\n",
+	img := ""
+	if is.Dev.Kind == "image" {
+		img = `,"img":` + jInts(is.Dev.Img)
+	}
+	fmt.Fprintf(w, `{"e":"i","sid":%d,"r":%s,"h":%d,"dev":["%s",%d,%d,%d],"io":["%s",%d,%d],"cells":%s,"iocells":%s,"pend":%s%s}`+"\n",
 		is.Sid, jInts(r[:]), b2i(is.Halt), is.Dev.Kind, is.Dev.Seed, is.Dev.Val, is.Dev.Len,
-		is.IO.Kind, is.IO.Seed, is.IO.Len, jPairs(is.Cells), jPairs(is.IOCells), jInts(is.Pend))
+		is.IO.Kind, is.IO.Seed, is.IO.Len, jPairs(is.Cells), jPairs(is.IOCells), jInts(is.Pend), img)
 }
 
 // StepAndEmit runs one real CPU.Step and writes the step event.
